@@ -29,6 +29,8 @@ __all__ = [
 
 _named_colors_lowercase = {k.lower(): v.lstrip("#") for k, v in NAMED_COLORS.items()}
 
+_HEX_COLOR_RE = re.compile(r"[0-9a-fA-F]{3}|[0-9a-fA-F]{6}")
+
 
 def parse_color(text: str) -> str:
     """
@@ -60,6 +62,11 @@ def parse_color(text: str) -> str:
             return col
         elif col in ANSI_COLOR_NAMES_ALIASES:
             return ANSI_COLOR_NAMES_ALIASES[col]
+
+        # Only hexadecimal digits from here on. (Anything else would be
+        # silently dropped, or misread by `int(color, 16)`, in the output.)
+        elif not _HEX_COLOR_RE.fullmatch(col):
+            pass
 
         # 6 digit hex color.
         elif len(col) == 6:
